@@ -133,6 +133,8 @@ def rule_crossing_point(chk, prog):
     rows = 0
     bad = None
     pts = [(-4, 3), (2, 5), (14, 2), (5, -4), (-3, -2), (12, -6), (3, 1), (7, -1)]
+    if chk.tier == "thorough":
+        pts += [(x, y) for x in (-6, 0, 5, 10, 16) for y in (-7, -1, 1, 4, 9)]
     for (sx, sy) in pts:
         for (ex, ey) in pts:
             if (sx, sy) == (ex, ey):
